@@ -966,7 +966,6 @@ func ruleC06SeidEntropy(w *World, r *Report) {
 	}
 }
 
-
 // interpretRegion walks the CFG from block start (entered from prev) for one valuation of the atoms, the
 // way evalBoolFuncV does for a whole function, and stops at the first Return or when it is about to
 // enter a block for which stop answers true. It returns the Return reached (nil when it stopped at a
